@@ -13,6 +13,8 @@ facts the harness re-extracts from the Go sources on every run.
 import AGH.Lemmas.StatsConcMain
 import AGH.Props.C09
 import AGH.Model.StatsFaults
+import AGH.Gen.C09Locks
+import AGH.Lemmas.StatsLoop
 namespace AGH.C09
 
 /-- Serializability.  Threads `t` with `ops t = some op` run concurrently from
@@ -119,6 +121,102 @@ theorem C09_real_locks_cover (op : COp) : okFor LockFacts.real op = true := by
   | read => rfl
   | setDays d => simp [okFor, COp.writes, confOf, LockFacts.real]
   | putConf ms en => simp [okFor, COp.writes, confOf, LockFacts.real]
+
+/-- THE TIE of the concurrency clause.  `AGH.Gen.C09.lockFacts` is regenerated
+from the Go sources of the tree under test on every run (extract/cmd/c09); the
+facts are turned into the `LockFacts` the programs of the model are built from,
+and the hypothesis of the interleaving theorem — for all six operations — is
+re-checked on them by the kernel.  A dropped or weakened lock makes this
+theorem fail to compile. -/
+theorem C09_lock_facts_obligation :
+    (LockFacts.ofRaw AGH.Gen.C09.lockFacts).okAll = true ∧ rawClean AGH.Gen.C09.lockFacts = true := by
+  decide +kernel
+
+theorem okAll_okFor {F : LockFacts} (h : F.okAll = true) (op : COp) : okFor F op = true := by
+  simp only [LockFacts.okAll, LockFacts.ok, Bool.and_eq_true, beq_iff_eq] at h
+  obtain ⟨⟨⟨⟨⟨h1, h2⟩, h3⟩, h4⟩, h5⟩, h6⟩ := h
+  cases op <;> simp [okFor, COp.writes, confOf, h1, h2, h3, h4, h5, h6]
+
+/-- Serializability for the locking the CURRENT tree has (no hypothesis left:
+it is discharged by `C09_lock_facts_obligation`). -/
+theorem C09_interleavings_serializable_current_tree (ops : Nat → Option COp) (s0 : State)
+    (σ : Sys Loc) (hr : Reach (concInit (LockFacts.ofRaw AGH.Gen.C09.lockFacts) ops s0) σ) :
+    ∃ hist : List Nat, hist.Nodup ∧
+      (∀ t ∈ hist, ∃ op, ops t = some op ∧ rejected op = false) ∧
+      (∀ t op, ops t = some op → rejected op = false → (σ.th t).rest = [] → t ∈ hist) ∧
+      ((σ.lk .conf).writer = none → runOps s0 (hist.map (opOf ops)) = some σ.st) ∧
+      (∀ t, ops t = some .read → (σ.th t).rest = [] →
+        ∃ h1 h2 s, hist = h1 ++ t :: h2 ∧ runOps s0 (h1.map (opOf ops)) = some s ∧
+          (σ.th t).loc.result = some (getData s)) :=
+  C09_interleavings_serializable _ ops s0 (fun _ op _ => okAll_okFor C09_lock_facts_obligation.1 op) σ hr
+
+/-! ### the flush loop: rollover within one polling period -/
+
+/-- The timing clause.  `periodicFlush` with polling period `period` (any
+positive value), a wake-up due within one period (true from `Start` on, and
+re-established by this theorem), statistics with a non-zero limit.  Let `d ≥
+period` ms pass.  If the UnitID generator has shown the same hour for the last
+`period` ms, the module's current unit is the unit of THAT hour — whatever
+happened before (clock steps of any size, any number of missed hours): a query
+counted more than one period after an hour change is counted in the new hour.
+A loop that may sleep longer than `period` while the unit is current does not
+satisfy this. -/
+theorem C09_rollover_within_period (period : Nat) (hp : 0 < period) (L : Loop) (d : Nat)
+    (hlim : L.s.limitHours ≠ 0) (hdue : L.next ≤ L.t + period) (hd : period ≤ d)
+    (hconst : hourAt (L.t + d - period) L.skew = hourAt (L.t + d) L.skew) :
+    (L.wait period d).s.curr.id = hourAt (L.t + d) L.skew ∧
+    (L.wait period d).t = L.t + d ∧
+    (L.wait period d).t < (L.wait period d).next ∧ (L.wait period d).next ≤ (L.wait period d).t + period ∧
+    (L.wait period d).s.limitHours ≠ 0 := by
+  have hle : L.next ≤ L.t + d := by omega
+  obtain ⟨a, b, _, e⟩ := polls_succ period ((L.t + d - L.next) / period) L hlim
+  have h1 : (L.t + d - L.next) / period * period ≤ L.t + d - L.next := Nat.div_mul_le_self _ _
+  have h2 : L.t + d - L.next < period * ((L.t + d - L.next) / period + 1) := Nat.lt_mul_div_succ _ hp
+  rw [Nat.mul_add, Nat.mul_one, Nat.mul_comm] at h2
+  have hw : L.wait period d = { L.polls period ((L.t + d - L.next) / period + 1) with t := L.t + d } := by
+    simp only [Loop.wait, hle, if_true]
+  rw [hw]
+  refine ⟨?_, rfl, ?_, ?_, by rw [e]; exact hlim⟩
+  · show (L.polls period ((L.t + d - L.next) / period + 1)).s.curr.id = _
+    rw [a]
+    apply Nat.le_antisymm
+    · exact hourAt_mono (by omega) _
+    · rw [← hconst]; exact hourAt_mono (by omega) _
+  · show L.t + d < (L.polls period ((L.t + d - L.next) / period + 1)).next
+    rw [b, Nat.add_mul, Nat.one_mul]; omega
+  · show (L.polls period ((L.t + d - L.next) / period + 1)).next ≤ L.t + d + period
+    rw [b, Nat.add_mul, Nat.one_mul]; omega
+
+/-- `Start` establishes the premise: the first `flush` runs at once and the next
+wake-up is one period later. -/
+theorem C09_loop_start_due (period t0 skew limitMs : Nat) (enabled : Bool) (L : Loop)
+    (h : Loop.start period t0 skew limitMs enabled = some L) :
+    L.t = t0 ∧ L.next = t0 + period ∧ L.s.limitHours ≠ 0 ∧ L.s.curr.id = hourAt t0 skew := by
+  simp only [Loop.start] at h
+  cases hn : new [] (hourAt t0 skew) limitMs enabled with
+  | none => simp [hn] at h
+  | some s =>
+    simp only [hn, Option.some.injEq] at h
+    subst h
+    have hv : validIvl limitMs = true := by
+      cases hv : validIvl limitMs with
+      | true => rfl
+      | false => simp [new, hv] at hn
+    have hs : s.limit = limitMs ∧ s.curr.id = hourAt t0 skew := by
+      simp only [new, hv, Bool.not_true, Bool.false_eq_true, if_false, Option.some.injEq, deleteOldUnits, DB.get,
+        MemUnit.deserialize] at hn
+      subst hn; exact ⟨rfl, rfl⟩
+    have hl : s.limitHours ≠ 0 := by
+      have := validIvl_range hv
+      simp only [State.limitHours, hs.1]; omega
+    refine ⟨rfl, rfl, ?_, tick_id _ _ hl⟩
+    simp only [Loop.poll, State.limitHours, tick_limit]
+    exact hl
+
+/-- THE TIE of the timing clause: what `flush` makes the loop sleep while the
+unit is current, re-extracted from the source on every run, is the documented
+one second — a constant, not a computed duration. -/
+theorem C09_poll_period_obligation : AGH.Gen.C09.pollPeriodMs = some docPeriodMs := by decide +kernel
 
 /-! ### the hypothesis is needed -/
 
